@@ -104,6 +104,14 @@ Proof.
   unfold last_opt. destruct l as [|x l]; [reflexivity|]. simpl. f_equal. apply last_map_f.
 Qed.
 
+Lemma py_index_map {A B} (f : A -> B) (l : list A) (k : Z) :
+  py_index (map f l) k = option_map f (py_index l k).
+Proof.
+  unfold py_index. rewrite map_length.
+  destruct (0 <=? (if 0 <=? k then k else Z.of_nat (List.length l) + k)); [|reflexivity].
+  rewrite nth_error_map. reflexivity.
+Qed.
+
 Definition ren_pair (k : Z) (p : sig * bexp) : sig * bexp := (I k (fst p), ren_bexp k (snd p)).
 
 Lemma extract_cover_ren k sigs rows :
@@ -111,13 +119,11 @@ Lemma extract_cover_ren k sigs rows :
 Proof.
   unfold extract_cover.
   destruct (find_special cover_special_table (tokens_of_rows rows)) as [[kk e]|].
-  - destruct (0 <=? kk).
-    + rewrite nth_error_map. destruct (nth_error sigs (Z.to_nat kk)) as [d|]; [|reflexivity].
-      simpl.
-      assert (E : bsubst (twire_ix (map (I k) sigs)) e = ren_bexp k (bsubst (twire_ix sigs) e)).
-      { unfold ren_bexp at 1. rewrite bsubst_bsubst. apply bsubst_ext. intro x. apply twire_ix_ren. }
-      rewrite E, ren_absent. destruct (has_absent (bsubst (twire_ix sigs) e)); reflexivity.
-    + reflexivity.
+  - rewrite py_index_map. destruct (py_index sigs kk) as [d|]; [|reflexivity].
+    simpl.
+    assert (E : bsubst (twire_ix (map (I k) sigs)) e = ren_bexp k (bsubst (twire_ix sigs) e)).
+    { unfold ren_bexp at 1. rewrite bsubst_bsubst. apply bsubst_ext. intro x. apply twire_ix_ren. }
+    rewrite E, ren_absent. destruct (has_absent (bsubst (twire_ix sigs) e)); reflexivity.
   - destruct (pair_tokens (tokens_of_rows rows)) as [planes|]; [|reflexivity].
     rewrite last_opt_map. destruct (last_opt sigs) as [d|]; [|reflexivity]. simpl.
     rewrite generic_cover_ren, ren_absent.
